@@ -962,8 +962,10 @@ func (env *specEnv) exactCmpIF(i, f Term) Term {
 	}
 	lo := x.enc.floatConst(-9223372036854775808.0, SF64)
 	hi := x.enc.floatConst(9223372036854775808.0, SF64)
-	tr := app(SF64, "fp.roundToIntegral RTZ", f)
-	ti := app(x.enc.intSortW(64), "(_ fp.to_sbv 64) RTZ", tr)
+	// integer part of f (in range here), and the same value back as a double:
+	// exact, because the integer part of a double is a double
+	ti := app(x.enc.intSortW(64), "(_ fp.to_sbv 64) RTZ", f)
+	tr := app(SF64, "(_ to_fp 11 53) RNE", ti)
 	frac := app(SF64, "fp.sub RNE", f, tr)
 	zero := T(SF64, "(_ +zero 11 53)")
 	m1, z, p1 := x.ic(-1), x.ic(0), x.ic(1)
